@@ -1,7 +1,660 @@
 /- helper lemmas for the Frank–Wolfe / min-norm theorems (C04, C18) -/
 import Mathlib.Algebra.Order.Field.Basic
+import Mathlib.Algebra.Order.BigOperators.Ring.Finset
+import Mathlib.Tactic.Ring
+import Mathlib.Tactic.Linarith
+import Mathlib.Tactic.FieldSimp
+import Mathlib.Tactic.Positivity
 import TjdModel.Agg.Spec2
 import TjdLemmas.QPLemmas
+import TjdLemmas.GramLemmas
 namespace Tjd.Agg
+open Tjd Matrix
+set_option linter.unusedSectionVars false
+set_option linter.unusedSimpArgs false
+set_option linter.unusedVariables false
+
+variable {α : Type} [Field α] [LinearOrder α] [IsStrictOrderedRing α]
+
+/-! ### the scalar line search -/
+
+/-- the step size of `fwStep` as a function of `a = αᵀGe_t`, `b = αᵀGα`, `c = e_tᵀGe_t` -/
+def fwGamma (a b c : α) : α :=
+  if c ≤ a then 1 else if b ≤ a then 0 else (b - a) / (b + c - (1 + 1) * a)
+
+theorem fwGamma_range (a b c : α) : 0 ≤ fwGamma a b c ∧ fwGamma a b c ≤ 1 := by
+  unfold fwGamma
+  split_ifs with h1 h2
+  · exact ⟨zero_le_one, le_rfl⟩
+  · exact ⟨le_rfl, zero_le_one⟩
+  · replace h1 := not_le.mp h1; replace h2 := not_le.mp h2
+    have hd : 0 < b + c - (1 + 1) * a := by linarith
+    constructor
+    · exact div_nonneg (by linarith) hd.le
+    · rw [div_le_one hd]; linarith
+
+/-- the value of the quadratic along the segment -/
+def fwPhi (a b c g : α) : α := b + 2 * g * (a - b) + g * g * (b + c - 2 * a)
+
+/-- exact line search: at least as good as any fixed step in `[0, 1]` -/
+theorem fwGamma_opt (a b c : α) (hd : 0 ≤ b + c - 2 * a) (g : α) (hg0 : 0 ≤ g) (hg1 : g ≤ 1) :
+    fwPhi a b c (fwGamma a b c) ≤ fwPhi a b c g := by
+  unfold fwGamma fwPhi
+  split_ifs with h1 h2
+  · nlinarith [mul_nonneg (sub_nonneg.2 h1) (sub_nonneg.2 hg1), mul_nonneg hd (sq_nonneg (g - 1))]
+  · nlinarith [mul_nonneg hg0 (sub_nonneg.2 h2), mul_nonneg hd (sq_nonneg g)]
+  · replace h1 := not_le.mp h1; replace h2 := not_le.mp h2
+    have hd' : 0 < b + c - 2 * a := by linarith
+    rw [one_add_one_eq_two]
+    generalize hγ : (b - a) / (b + c - 2 * a) = γ
+    have e : γ * (b + c - 2 * a) = b - a := by rw [← hγ]; exact div_mul_cancel₀ _ hd'.ne'
+    have e1 : γ * γ * (b + c - 2 * a) = γ * (b - a) := by rw [mul_assoc, e]
+    have e2 : g * γ * (b + c - 2 * a) = g * (b - a) := by rw [mul_assoc, e]
+    have h3 := mul_nonneg hd (sq_nonneg (g - γ))
+    have e3 : (b + c - 2 * a) * (g - γ) ^ 2 =
+        g * g * (b + c - 2 * a) - 2 * (g * γ * (b + c - 2 * a)) + γ * γ * (b + c - 2 * a) := by ring
+    rw [e3, e1, e2] at h3
+    rw [e1]
+    linarith
+
+/-- in the interior branch the exact line search is the global minimiser on the whole line -/
+theorem fwGamma_opt_line (a b c : α) (hd : 0 ≤ b + c - 2 * a) (hab : a ≤ b) (g : α) (hg1 : g ≤ 1) :
+    fwPhi a b c (fwGamma a b c) ≤ fwPhi a b c g := by
+  by_cases hg0 : 0 ≤ g
+  · exact fwGamma_opt a b c hd g hg0 hg1
+  · replace hg0 := not_le.mp hg0
+    refine le_trans (fwGamma_opt a b c hd 0 le_rfl zero_le_one) ?_
+    unfold fwPhi
+    nlinarith [mul_nonneg (sub_nonneg.2 hab) (neg_nonneg.2 hg0.le), mul_nonneg hd (sq_nonneg g)]
+
+theorem fwPhi_zero (a b c : α) : fwPhi a b c 0 = b := by unfold fwPhi; ring
+
+/-! ### simplex facts -/
+
+theorem inSimplex_fn {a : Vec α} {m : Nat} (ha : InSimplex a m) :
+    a.length = m ∧ (∀ i : Fin m, 0 ≤ toFn m a i) ∧ ∑ i : Fin m, toFn m a i = 1 := by
+  obtain ⟨h1, h2, h3⟩ := ha
+  refine ⟨h1, fun i => h2 _ (getD_mem a 0 i (by omega)), ?_⟩
+  rw [← h3, list_sum_eq_sum m a h1.le]
+  rfl
+
+theorem inSimplex_of_fn {a : Vec α} {m : Nat} (h1 : a.length = m) (h2 : ∀ i : Fin m, 0 ≤ toFn m a i)
+    (h3 : ∑ i : Fin m, toFn m a i = 1) : InSimplex a m := by
+  refine ⟨h1, fun x hx => ?_, ?_⟩
+  · obtain ⟨i, hi, rfl⟩ := List.mem_iff_getElem.mp hx
+    have := h2 ⟨i, by omega⟩
+    simpa [toFn, List.getD_eq_getElem?_getD, List.getElem?_eq_getElem hi] using this
+  · rw [← h3, list_sum_eq_sum m a h1.le]
+    rfl
+
+theorem inSimplex_pos {a : Vec α} {m : Nat} (ha : InSimplex a m) : 0 < m := by
+  obtain ⟨h1, _, h3⟩ := ha
+  rcases Nat.eq_zero_or_pos m with h | h
+  · subst h
+    have : a = [] := List.length_eq_zero_iff.mp h1
+    subst this
+    simp at h3
+  · exact h
+
+theorem oneHot_inSimplex (m t : Nat) (ht : t < m) : InSimplex (oneHot m t : Vec α) m := by
+  apply inSimplex_of_fn (oneHot_length m t)
+  · intro i; rw [toFn_oneHot]; dsimp only; split_ifs <;> simp
+  · rw [toFn_oneHot]
+    rw [Finset.sum_eq_single (⟨t, ht⟩ : Fin m)]
+    · simp
+    · intro i _ hi
+      have : (i : Nat) ≠ t := fun h => hi (Fin.ext h)
+      simp [this]
+    · simp
+
+theorem replicate_inSimplex (m : Nat) (hm : 0 < m) :
+    InSimplex (List.replicate m (1 / (m : α))) m := by
+  have hm' : (m : α) ≠ 0 := Nat.cast_ne_zero.mpr (by omega)
+  refine ⟨by simp, fun x hx => ?_, ?_⟩
+  · rw [List.eq_of_mem_replicate hx]; positivity
+  · rw [List.sum_replicate, nsmul_eq_mul]; field_simp
+
+theorem convex_inSimplex {a e : Vec α} {m : Nat} (ha : InSimplex a m) (he : InSimplex e m) (g : α)
+    (hg0 : 0 ≤ g) (hg1 : g ≤ 1) : InSimplex (vadd (smul (1 - g) a) (smul g e)) m := by
+  obtain ⟨a1, a2, a3⟩ := inSimplex_fn ha
+  obtain ⟨e1, e2, e3⟩ := inSimplex_fn he
+  have hl : (smul (1 - g) a).length = (smul g e).length := by rw [smul_length, smul_length, a1, e1]
+  apply inSimplex_of_fn
+  · rw [vadd_length _ _ hl, smul_length, a1]
+  · intro i
+    rw [toFn_vadd m _ _ hl, toFn_smul, toFn_smul]
+    simp only [Pi.add_apply, Pi.smul_apply, smul_eq_mul]
+    exact add_nonneg (mul_nonneg (sub_nonneg.2 hg1) (a2 i)) (mul_nonneg hg0 (e2 i))
+  · rw [toFn_vadd m _ _ hl, toFn_smul, toFn_smul]
+    simp only [Pi.add_apply, Pi.smul_apply, smul_eq_mul]
+    rw [Finset.sum_add_distrib, ← Finset.mul_sum, ← Finset.mul_sum, a3, e3]
+    ring
+
+/-! ### the quadratic along a line -/
+
+theorem qfF_line {m : Nat} (A : Matrix (Fin m) (Fin m) α) (hA : Aᵀ = A) (x e : Fin m → α) (g : α) :
+    ((1 - g) • x + g • e) ⬝ᵥ A *ᵥ ((1 - g) • x + g • e) =
+      fwPhi (x ⬝ᵥ A *ᵥ e) (x ⬝ᵥ A *ᵥ x) (e ⬝ᵥ A *ᵥ e) g := by
+  simp only [mulVec_add, mulVec_smul, add_dotProduct, dotProduct_add, smul_dotProduct,
+    dotProduct_smul, smul_eq_mul]
+  rw [qfF_symm A hA x e]
+  unfold fwPhi
+  ring
+
+theorem qf_line (G : Mat α) (m : Nat) (hG : SymmSquare G m) (a e : Vec α) (ha : a.length = m)
+    (he : e.length = m) (g : α) :
+    qf G (vadd (smul (1 - g) a) (smul g e)) =
+      fwPhi (dot a (matVec G e)) (dot a (matVec G a)) (dot e (matVec G e)) g := by
+  have hl : (smul (1 - g) a).length = (smul g e).length := by rw [smul_length, smul_length, ha, he]
+  have hlen : (vadd (smul (1 - g) a) (smul g e)).length = m := by
+    rw [vadd_length _ _ hl, smul_length, ha]
+  rw [qf_eq m G _ hlen.le, toFn_vadd m _ _ hl, toFn_smul, toFn_smul,
+    qfF_line _ (toMat_symm m G hG), dot_eq_left m a _ ha.le, dot_eq_left m a _ ha.le,
+    dot_eq_left m e _ he.le, toFn_matVec m m G e he.le, toFn_matVec m m G a ha.le]
+
+theorem fw_d_nonneg (G : Mat α) (m : Nat) (hG : SymmSquare G m) (hpsd : PosSemidef G m)
+    (a e : Vec α) (ha : a.length = m) (he : e.length = m) :
+    0 ≤ dot a (matVec G a) + dot e (matVec G e) - 2 * dot a (matVec G e) := by
+  have h := psd_fn m G hpsd (toFn m e - toFn m a)
+  simp only [mulVec_sub, sub_dotProduct, dotProduct_sub] at h
+  rw [qfF_symm _ (toMat_symm m G hG) (toFn m a) (toFn m e)] at h
+  rw [dot_eq_left m a _ ha.le, dot_eq_left m a _ ha.le,
+    dot_eq_left m e _ he.le, toFn_matVec m m G e he.le, toFn_matVec m m G a ha.le]
+  linarith
+
+/-! ### `vmin`, `argminGap` -/
+
+theorem foldl_min_spec (xs : List α) (init : α) :
+    xs.foldl (fun a b => if b < a then b else a) init ≤ init ∧
+    (∀ x ∈ xs, xs.foldl (fun a b => if b < a then b else a) init ≤ x) ∧
+    (xs.foldl (fun a b => if b < a then b else a) init = init ∨
+      xs.foldl (fun a b => if b < a then b else a) init ∈ xs) := by
+  induction xs generalizing init with
+  | nil => simp
+  | cons y ys ih =>
+    simp only [List.foldl_cons]
+    rcases lt_or_ge y init with h | h
+    · rw [if_pos h]
+      obtain ⟨h1, h2, h3⟩ := ih y
+      refine ⟨h1.trans h.le, ?_, ?_⟩
+      · intro x hx
+        rcases List.mem_cons.mp hx with rfl | hx
+        · exact h1
+        · exact h2 x hx
+      · rcases h3 with h3 | h3
+        · right; rw [h3]; simp
+        · right; exact List.mem_cons_of_mem _ h3
+    · rw [if_neg (not_lt.mpr h)]
+      obtain ⟨h1, h2, h3⟩ := ih init
+      refine ⟨h1, ?_, ?_⟩
+      · intro x hx
+        rcases List.mem_cons.mp hx with rfl | hx
+        · exact h1.trans h
+        · exact h2 x hx
+      · rcases h3 with h3 | h3
+        · left; exact h3
+        · right; exact List.mem_cons_of_mem _ h3
+
+theorem vmin_spec (xs : List α) (d : α) (h : xs ≠ []) :
+    vmin xs d ∈ xs ∧ ∀ x ∈ xs, vmin xs d ≤ x := by
+  cases xs with
+  | nil => exact absurd rfl h
+  | cons y ys =>
+    obtain ⟨h1, h2, h3⟩ := foldl_min_spec (y :: ys) y
+    refine ⟨?_, h2⟩
+    rcases h3 with h3 | h3
+    · show List.foldl _ _ _ ∈ _
+      simp only [List.headD_cons]
+      rw [h3]; simp
+    · exact h3
+
+theorem argminGap_spec (xs : List α) (h : xs ≠ []) :
+    (argminGap xs).1 < xs.length ∧
+      ∀ i, i < xs.length → xs.getD (argminGap xs).1 0 ≤ xs.getD i 0 := by
+  obtain ⟨hmem, hle⟩ := vmin_spec xs 0 h
+  have e : (argminGap xs).1 =
+      ((xs.zipIdx.find? (fun p => decide (p.1 = vmin xs 0))).map (·.2)).getD 0 := rfl
+  rw [e]
+  cases hf : xs.zipIdx.find? (fun p => decide (p.1 = vmin xs 0)) with
+  | none =>
+    exfalso
+    rw [List.find?_eq_none] at hf
+    obtain ⟨i, hi, hx⟩ := List.mem_iff_getElem.mp hmem
+    apply hf (xs[i], i)
+    · rw [List.mem_zipIdx_iff_getElem?]; simp [hi]
+    · simp [hx]
+  | some p =>
+    have hp := List.find?_some hf
+    have hm := List.mem_of_find?_eq_some hf
+    rw [List.mem_zipIdx_iff_getElem?] at hm
+    simp only [Option.map_some, Option.getD_some]
+    obtain ⟨hlt, hget⟩ := List.getElem?_eq_some_iff.mp hm
+    refine ⟨hlt, fun i hi => ?_⟩
+    have hp' : p.1 = vmin xs 0 := by simpa using hp
+    rw [List.getD_eq_getElem?_getD, hm, Option.getD_some, hp']
+    exact hle _ (getD_mem xs 0 i hi)
+
+/-! ### one Frank–Wolfe step -/
+
+/-- the vertex chosen by `fwStep` -/
+def fwT (G : Mat α) (a : Vec α) : Nat := (argminGap (matVec G a)).1
+def fwE (G : Mat α) (a : Vec α) : Vec α := oneHot a.length (fwT G a)
+def fwG (G : Mat α) (a : Vec α) : α :=
+  fwGamma (dot a (matVec G (fwE G a))) (dot a (matVec G a)) (dot (fwE G a) (matVec G (fwE G a)))
+
+theorem fwStep_fst (G : Mat α) (a : Vec α) :
+    (fwStep G a).1 = vadd (smul (1 - fwG G a) a) (smul (fwG G a) (fwE G a)) := rfl
+
+theorem fwStep_snd (G : Mat α) (a : Vec α) : (fwStep G a).2.1 = fwG G a := rfl
+
+theorem fwG_range (G : Mat α) (a : Vec α) : 0 ≤ fwG G a ∧ fwG G a ≤ 1 := fwGamma_range _ _ _
+
+theorem fwT_spec (G : Mat α) (m : Nat) (hm : 0 < m) (hG : G.length = m) (a : Vec α) :
+    fwT G a < m ∧ ∀ i, i < m → (matVec G a).getD (fwT G a) 0 ≤ (matVec G a).getD i 0 := by
+  have hl : (matVec G a).length = m := by rw [matVec_length, hG]
+  have hne : matVec G a ≠ [] := by
+    intro h; rw [h] at hl; simp at hl; omega
+  have := argminGap_spec (matVec G a) hne
+  rw [hl] at this
+  exact this
+
+theorem fwE_length (G : Mat α) (a : Vec α) : (fwE G a).length = a.length := oneHot_length _ _
+
+theorem fwE_inSimplex (G : Mat α) (m : Nat) (hm : 0 < m) (hG : G.length = m) (a : Vec α)
+    (ha : a.length = m) : InSimplex (fwE G a) m := by
+  unfold fwE
+  rw [ha]
+  exact oneHot_inSimplex m _ (fwT_spec G m hm hG a).1
+
+theorem fwStep_inSimplex (G : Mat α) (m : Nat) (hm : 0 < m) (hG : G.length = m) (a : Vec α)
+    (ha : InSimplex a m) : InSimplex (fwStep G a).1 m := by
+  rw [fwStep_fst]
+  exact convex_inSimplex ha (fwE_inSimplex G m hm hG a ha.1) _ (fwG_range G a).1 (fwG_range G a).2
+
+theorem fwStep_qf (G : Mat α) (m : Nat) (hG : SymmSquare G m) (a : Vec α) (ha : a.length = m) :
+    qf G (fwStep G a).1 =
+      fwPhi (dot a (matVec G (fwE G a))) (dot a (matVec G a))
+        (dot (fwE G a) (matVec G (fwE G a))) (fwG G a) := by
+  rw [fwStep_fst, qf_line G m hG a (fwE G a) ha (by rw [fwE_length, ha])]
+
+/-- exact line search beats every fixed step -/
+theorem fwStep_le_phi (G : Mat α) (m : Nat) (hG : SymmSquare G m) (hpsd : PosSemidef G m)
+    (a : Vec α) (ha : a.length = m) (g : α) (hg0 : 0 ≤ g) (hg1 : g ≤ 1) :
+    qf G (fwStep G a).1 ≤
+      fwPhi (dot a (matVec G (fwE G a))) (dot a (matVec G a))
+        (dot (fwE G a) (matVec G (fwE G a))) g := by
+  rw [fwStep_qf G m hG a ha]
+  exact fwGamma_opt _ _ _ (fw_d_nonneg G m hG hpsd a (fwE G a) ha (by rw [fwE_length, ha])) g hg0 hg1
+
+theorem fwStep_mono (G : Mat α) (m : Nat) (hG : SymmSquare G m) (hpsd : PosSemidef G m)
+    (a : Vec α) (ha : a.length = m) : qf G (fwStep G a).1 ≤ qf G a := by
+  have := fwStep_le_phi G m hG hpsd a ha 0 le_rfl zero_le_one
+  rwa [fwPhi_zero] at this
+
+/-! ### the loop -/
+
+theorem go_succ (G : Mat α) (eps : α) (k : Nat) (a : Vec α) (mg : α) :
+    (mgdaWeights.go G eps (k + 1) a mg).1 =
+      if (fwStep G a).2.1 < eps then (fwStep G a).1
+      else (mgdaWeights.go G eps k (fwStep G a).1
+        (vmin [mg, (fwStep G a).2.2, absV ((fwStep G a).2.1 - eps)] 1)).1 := by
+  rw [mgdaWeights.go]
+  generalize fwStep G a = r
+  obtain ⟨a', g, mg'⟩ := r
+  dsimp only
+  split_ifs <;> rfl
+
+theorem go_invariant (G : Mat α) (eps : α) (P : Vec α → Prop)
+    (hP : ∀ a, P a → P (fwStep G a).1) :
+    ∀ (k : Nat) (a : Vec α) (mg : α), P a → P (mgdaWeights.go G eps k a mg).1
+  | 0, a, mg, h => by rw [mgdaWeights.go]; exact h
+  | k + 1, a, mg, h => by
+    rw [go_succ]
+    split_ifs
+    · exact hP a h
+    · exact go_invariant G eps P hP k _ _ (hP a h)
+
+theorem go_invariant_succ (G : Mat α) (eps : α) (P Q : Vec α → Prop)
+    (hPQ : ∀ a, P a → Q (fwStep G a).1) (hQ : ∀ a, Q a → Q (fwStep G a).1)
+    (k : Nat) (a : Vec α) (mg : α) (h : P a) : Q (mgdaWeights.go G eps (k + 1) a mg).1 := by
+  rw [go_succ]
+  split_ifs
+  · exact hPQ a h
+  · exact go_invariant G eps Q hQ k _ _ (hPQ a h)
+
+theorem mgdaWeights_eq (G : Mat α) (m : Nat) (mInv eps : α) (K : Nat) :
+    mgdaWeights G m mInv eps K = mgdaWeights.go G eps K (List.replicate m mInv) 1 := rfl
+
+theorem mgda_simplex_mono (G : Mat α) (m : Nat) (hm : 0 < m) (hG : SymmSquare G m)
+    (hpsd : PosSemidef G m) (epsilon : α) (K : Nat) :
+    InSimplex (mgdaWeights G m (1 / (m : α)) epsilon K).1 m ∧
+    qf G (mgdaWeights G m (1 / (m : α)) epsilon K).1 ≤ qf G (List.replicate m (1 / (m : α))) := by
+  rw [mgdaWeights_eq]
+  apply go_invariant G epsilon
+    (fun a => InSimplex a m ∧ qf G a ≤ qf G (List.replicate m (1 / (m : α))))
+  · rintro a ⟨h1, h2⟩
+    exact ⟨fwStep_inSimplex G m hm hG.1 a h1, (fwStep_mono G m hG hpsd a h1.1).trans h2⟩
+  · exact ⟨replicate_inSimplex m hm, le_rfl⟩
+
+/-! ### the abstract Frank–Wolfe recurrence -/
+
+theorem fw_rec (h : Nat → α) (C : α) (hC : 0 ≤ C)
+    (hstep : ∀ k, ∀ γ : α, 0 ≤ γ → γ ≤ 1 → h (k + 1) ≤ (1 - γ) * h k + γ * γ * C / 2)
+    (k : Nat) (hk : 1 ≤ k) : h k ≤ 2 * C / ((k : α) + 2) := by
+  induction k, hk using Nat.le_induction with
+  | base =>
+    have h1 := hstep 0 1 zero_le_one le_rfl
+    have e : 2 * C / (((1 : Nat) : α) + 2) = 2 * C / 3 := by norm_num
+    rw [e]
+    have h2 : (1 - 1) * h 0 + 1 * 1 * C / 2 = C / 2 := by ring
+    rw [zero_add, h2] at h1
+    linarith
+  | succ k hk ih =>
+    have hk0 : (0 : α) ≤ k := Nat.cast_nonneg k
+    have hk2 : (0 : α) < (k : α) + 2 := by linarith
+    have hγ0 : (0 : α) ≤ 2 / ((k : α) + 2) := by positivity
+    have hγ1 : 2 / ((k : α) + 2) ≤ 1 := by rw [div_le_one hk2]; linarith
+    have h1 := hstep k _ hγ0 hγ1
+    have h2 : (1 - 2 / ((k : α) + 2)) * h k ≤ (1 - 2 / ((k : α) + 2)) * (2 * C / ((k : α) + 2)) :=
+      mul_le_mul_of_nonneg_left ih (sub_nonneg.2 hγ1)
+    have h3 : (1 - 2 / ((k : α) + 2)) * (2 * C / ((k : α) + 2)) +
+        2 / ((k : α) + 2) * (2 / ((k : α) + 2)) * C / 2 = 2 * C * ((k : α) + 1) / ((k : α) + 2) ^ 2 := by
+      field_simp
+      ring
+    have h4 : 2 * C * ((k : α) + 1) / ((k : α) + 2) ^ 2 ≤ 2 * C / (((k + 1 : Nat) : α) + 2) := by
+      push_cast
+      rw [div_le_div_iff₀ (by positivity) (by positivity)]
+      nlinarith [hC, mul_nonneg hC hk0, mul_nonneg (mul_nonneg hC hk0) hk0]
+    linarith
+
+/-! ### variational inequality on the simplex -/
+
+theorem simplex_dot_ge {m : Nat} (y v : Fin m → α) (hy0 : ∀ i, 0 ≤ y i) (hy1 : ∑ i, y i = 1) (c : α)
+    (hc : ∀ i, c ≤ v i) : c ≤ y ⬝ᵥ v := by
+  calc c = ∑ i, y i * c := by rw [← Finset.sum_mul, hy1, one_mul]
+    _ ≤ ∑ i, y i * v i := Finset.sum_le_sum fun i _ => mul_le_mul_of_nonneg_left (hc i) (hy0 i)
+
+theorem simplex_self_le_one {m : Nat} (y : Fin m → α) (hy0 : ∀ i, 0 ≤ y i) (hy1 : ∑ i, y i = 1) :
+    y ⬝ᵥ y ≤ 1 := by
+  calc y ⬝ᵥ y = ∑ i, y i * y i := rfl
+    _ ≤ ∑ i, y i * 1 := Finset.sum_le_sum fun i _ => mul_le_mul_of_nonneg_left
+        (by rw [← hy1]; exact Finset.single_le_sum (fun j _ => hy0 j) (Finset.mem_univ i)) (hy0 i)
+    _ = 1 := by simp [hy1]
+
+theorem simplex_min_fn {m : Nat} (A : Matrix (Fin m) (Fin m) α) (hA : Aᵀ = A)
+    (hpsd : ∀ v : Fin m → α, 0 ≤ v ⬝ᵥ A *ᵥ v) (x y : Fin m → α) (hy0 : ∀ i, 0 ≤ y i)
+    (hy1 : ∑ i, y i = 1) (hcert : ∀ i, x ⬝ᵥ A *ᵥ x ≤ (A *ᵥ x) i) :
+    x ⬝ᵥ A *ᵥ x ≤ y ⬝ᵥ A *ᵥ y := by
+  rw [qfF_expand A hA y x, sub_dotProduct]
+  have h1 := simplex_dot_ge y (A *ᵥ x) hy0 hy1 _ hcert
+  have h2 := hpsd (y - x)
+  linarith
+
+theorem minNormCheck_spec (G : Mat α) (a : Vec α) (h : minNormCheck G a = true) :
+    a.length = G.length ∧ (∀ x ∈ a, 0 ≤ x) ∧ a.sum = 1 ∧
+      ∀ x ∈ matVec G a, dot a (matVec G a) ≤ x := by
+  simp only [minNormCheck, Bool.and_eq_true, decide_eq_true_eq, List.all_eq_true, beq_iff_eq] at h
+  obtain ⟨⟨⟨h1, h2⟩, h3⟩, h4⟩ := h
+  exact ⟨h1, h2, h3, h4⟩
+
+theorem minNormCheck_fn (G : Mat α) (m : Nat) (hGl : G.length = m) (a : Vec α)
+    (h : minNormCheck G a = true) :
+    InSimplex a m ∧ ∀ i : Fin m, toFn m a ⬝ᵥ toMat m m G *ᵥ toFn m a ≤ (toMat m m G *ᵥ toFn m a) i := by
+  obtain ⟨h1, h2, h3, h4⟩ := minNormCheck_spec G a h
+  have hl : a.length = m := by omega
+  refine ⟨⟨hl, h2, h3⟩, fun i => ?_⟩
+  rw [← toFn_matVec m m G a hl.le, ← dot_eq_left m a _ hl.le, toFn_apply]
+  exact h4 _ (getD_mem _ 0 i (by rw [matVec_length, hGl]; exact i.2))
+
+theorem minnorm_cert (G : Mat α) (m : Nat) (hG : SymmSquare G m) (hpsd : PosSemidef G m)
+    (a : Vec α) (h : minNormCheck G a = true) :
+    InSimplex a m ∧ ∀ b, InSimplex b m → qf G a ≤ qf G b := by
+  obtain ⟨ha, hcert⟩ := minNormCheck_fn G m hG.1 a h
+  refine ⟨ha, fun b hb => ?_⟩
+  obtain ⟨b1, b2, b3⟩ := inSimplex_fn hb
+  rw [qf_eq m G a ha.1.le, qf_eq m G b b1.le]
+  exact simplex_min_fn _ (toMat_symm m G hG) (psd_fn m G hpsd) _ _ b2 b3 hcert
+
+/-! ### MGDA non-conflict allowance -/
+
+theorem nonconflict_fn {m n : Nat} (B : Matrix (Fin m) (Fin n) α) (x xs : Fin m → α)
+    (hx0 : ∀ i, 0 ≤ x i) (hx1 : ∑ i, x i = 1)
+    (hcert : ∀ k, xs ⬝ᵥ (B * Bᵀ) *ᵥ xs ≤ ((B * Bᵀ) *ᵥ xs) k) (i : Fin m)
+    (hneg : B i ⬝ᵥ (x ᵥ* B) < 0) :
+    (B i ⬝ᵥ (x ᵥ* B)) * (B i ⬝ᵥ (x ᵥ* B)) ≤
+      (B i ⬝ᵥ B i) * (x ⬝ᵥ (B * Bᵀ) *ᵥ x - xs ⬝ᵥ (B * Bᵀ) *ᵥ xs) := by
+  have hrow : ∀ k, ((B * Bᵀ) *ᵥ xs) k = B k ⬝ᵥ (xs ᵥ* B) := by
+    intro k
+    rw [← mulVec_mulVec, mulVec_transpose]
+    rfl
+  simp only [hrow, qfF_gram] at hcert ⊢
+  generalize hX : x ᵥ* B = X at *
+  generalize hS : xs ᵥ* B = S at *
+  have hμ : 0 ≤ S ⬝ᵥ S := dotProduct_self_nonneg' S
+  have h1 := hcert i
+  have h2 : S ⬝ᵥ S ≤ X ⬝ᵥ S := by
+    rw [← hX, ← dotProduct_mulVec]
+    exact simplex_dot_ge x (B *ᵥ S) hx0 hx1 _ hcert
+  have hcs : (B i ⬝ᵥ (X - S)) ^ 2 ≤ (B i ⬝ᵥ B i) * ((X - S) ⬝ᵥ (X - S)) := by
+    have := Finset.sum_mul_sq_le_sq_mul_sq Finset.univ (B i) (X - S)
+    simpa [dotProduct, pow_two] using this
+  have hD : (X - S) ⬝ᵥ (X - S) = X ⬝ᵥ X - 2 * (X ⬝ᵥ S) + S ⬝ᵥ S := by
+    simp only [sub_dotProduct, dotProduct_sub]
+    rw [dotProduct_comm S X]; ring
+  have hq : B i ⬝ᵥ (X - S) = B i ⬝ᵥ X - B i ⬝ᵥ S := dotProduct_sub _ _ _
+  have huu : 0 ≤ B i ⬝ᵥ B i := dotProduct_self_nonneg' _
+  generalize B i ⬝ᵥ X = p at *
+  generalize B i ⬝ᵥ S = r at *
+  generalize B i ⬝ᵥ B i = uu at *
+  generalize X ⬝ᵥ X = xx at *
+  generalize X ⬝ᵥ S = xs' at *
+  generalize S ⬝ᵥ S = μ at *
+  rw [hq, hD] at hcs
+  have h3 : p * p ≤ (p - r) ^ 2 := by nlinarith [mul_nonneg (neg_nonneg.2 hneg.le) (le_trans hμ h1)]
+  have h4 : uu * (xx - 2 * xs' + μ) ≤ uu * (xx - μ) := mul_le_mul_of_nonneg_left (by linarith) huu
+  linarith
+
+theorem mgda_nonconflict' (J : Mat α) (m n : Nat) (hJ : MatWF J m n) (a astar : Vec α)
+    (ha : InSimplex a m) (hstar : minNormCheck (gram J) astar = true) (i : Nat) (hi : i < m)
+    (hneg : dot (J.getD i []) (combine n J a) < 0) :
+    dot (J.getD i []) (combine n J a) * dot (J.getD i []) (combine n J a) ≤
+      dot (J.getD i []) (J.getD i []) * (qf (gram J) a - qf (gram J) astar) := by
+  have hGl : (gram J).length = m := by rw [gram_length, hJ.1]
+  obtain ⟨hs, hcert⟩ := minNormCheck_fn (gram J) m hGl astar hstar
+  obtain ⟨a1, a2, a3⟩ := inSimplex_fn ha
+  have hrow := row_length J m n hJ i hi
+  rw [toMat_gram J m n hJ] at hcert
+  have e1 : dot (J.getD i []) (combine n J a) =
+      toMat m n J ⟨i, hi⟩ ⬝ᵥ (toFn m a ᵥ* toMat m n J) := by
+    rw [dot_eq_left n _ _ hrow.le, toFn_combine J m n hJ a a1]
+    rfl
+  have e2 : dot (J.getD i []) (J.getD i []) = toMat m n J ⟨i, hi⟩ ⬝ᵥ toMat m n J ⟨i, hi⟩ := by
+    rw [dot_eq_left n _ _ hrow.le]
+    rfl
+  rw [e1] at hneg
+  rw [e1, e2, qf_eq m _ a a1.le, qf_eq m _ astar hs.1.le, toMat_gram J m n hJ]
+  exact nonconflict_fn (toMat m n J) (toFn m a) (toFn m astar) a2 a3 hcert ⟨i, hi⟩ hneg
+
+/-! ### facts about the chosen vertex -/
+
+/-- `αᵀ G e_t = (G α)_t` -/
+theorem dot_matVec_oneHot (G : Mat α) (m : Nat) (hG : SymmSquare G m) (a : Vec α) (ha : a.length = m)
+    (t : Nat) (ht : t < m) : dot a (matVec G (oneHot m t)) = (matVec G a).getD t 0 := by
+  rw [dot_eq_left m a _ ha.le, toFn_matVec m m G _ (oneHot_length m t).le, toFn_oneHot_single m t ht,
+    qfF_symm _ (toMat_symm m G hG) (Pi.single ⟨t, ht⟩ 1) (toFn m a), single_one_dotProduct,
+    ← toFn_matVec m m G a ha.le]
+  rfl
+
+/-- the vertex minimises the linearisation: `αᵀGe_t ≤ b'ᵀGα` for every `b'` in the simplex -/
+theorem fw_aprime_le (G : Mat α) (m : Nat) (hm : 0 < m) (hG : SymmSquare G m) (a : Vec α)
+    (ha : a.length = m) (b : Vec α) (hb : InSimplex b m) :
+    dot a (matVec G (fwE G a)) ≤ dot b (matVec G a) := by
+  obtain ⟨ht, hmin⟩ := fwT_spec G m hm hG.1 a
+  obtain ⟨b1, b2, b3⟩ := inSimplex_fn hb
+  unfold fwE
+  rw [ha, dot_matVec_oneHot G m hG a ha _ ht, dot_eq_left m b _ b1.le]
+  exact simplex_dot_ge _ _ b2 b3 _ fun i => hmin i i.2
+
+theorem qf_convex (G : Mat α) (m : Nat) (hG : SymmSquare G m) (hpsd : PosSemidef G m) (a b : Vec α)
+    (ha : a.length = m) (hb : b.length = m) :
+    qf G a + 2 * (dot b (matVec G a) - dot a (matVec G a)) ≤ qf G b := by
+  rw [qf_eq m G a ha.le, qf_eq m G b hb.le, dot_eq_left m b _ hb.le, dot_eq_left m a _ ha.le,
+    toFn_matVec m m G a ha.le, qfF_expand _ (toMat_symm m G hG) (toFn m b) (toFn m a),
+    sub_dotProduct]
+  have := psd_fn m G hpsd (toFn m b - toFn m a)
+  linarith
+
+theorem hs_fn (G : Mat α) (m : Nat) (s2 : α) (hs : ∀ v : Vec α, v.length = m → qf G v ≤ s2 * dot v v)
+    (f : Fin m → α) : f ⬝ᵥ toMat m m G *ᵥ f ≤ s2 * (f ⬝ᵥ f) := by
+  have := hs (List.ofFn f) (by simp)
+  rwa [qf_eq m G _ (by simp), dot_eq_left m _ _ (by simp), toFn_ofFn] at this
+
+theorem s2_nonneg (G : Mat α) (m : Nat) (hm : 0 < m) (hpsd : PosSemidef G m) (s2 : α)
+    (hs : ∀ v : Vec α, v.length = m → qf G v ≤ s2 * dot v v) : 0 ≤ s2 := by
+  have h1 := hs_fn G m s2 hs (Pi.single ⟨0, hm⟩ 1)
+  have h2 := psd_fn m G hpsd (Pi.single ⟨0, hm⟩ 1)
+  have h3 : (Pi.single (⟨0, hm⟩ : Fin m) (1 : α)) ⬝ᵥ Pi.single ⟨0, hm⟩ 1 = 1 := by
+    rw [single_one_dotProduct]; simp
+  rw [h3, mul_one] at h1
+  linarith
+
+theorem fw_d_le (G : Mat α) (m : Nat) (hm : 0 < m) (hG : SymmSquare G m) (hpsd : PosSemidef G m)
+    (s2 : α) (hs : ∀ v : Vec α, v.length = m → qf G v ≤ s2 * dot v v)
+    (a e : Vec α) (ha : InSimplex a m) (he : InSimplex e m) :
+    dot a (matVec G a) + dot e (matVec G e) - 2 * dot a (matVec G e) ≤ 2 * s2 := by
+  obtain ⟨a1, a2, a3⟩ := inSimplex_fn ha
+  obtain ⟨e1, e2, e3⟩ := inSimplex_fn he
+  have h := hs_fn G m s2 hs (toFn m e - toFn m a)
+  have hs0 := s2_nonneg G m hm hpsd s2 hs
+  have hn : (toFn m e - toFn m a) ⬝ᵥ (toFn m e - toFn m a) ≤ 2 := by
+    simp only [sub_dotProduct, dotProduct_sub]
+    have := simplex_self_le_one _ a2 a3
+    have := simplex_self_le_one _ e2 e3
+    have := dotProduct_nonneg' _ _ e2 a2
+    have := dotProduct_nonneg' _ _ a2 e2
+    linarith
+  simp only [mulVec_sub, sub_dotProduct, dotProduct_sub] at h hn
+  rw [qfF_symm _ (toMat_symm m G hG) (toFn m a) (toFn m e)] at h
+  rw [dot_eq_left m a _ a1.le, dot_eq_left m a _ a1.le,
+    dot_eq_left m e _ e1.le, toFn_matVec m m G e e1.le, toFn_matVec m m G a a1.le]
+  have := mul_le_mul_of_nonneg_left hn hs0
+  linarith
+
+/-- the per-iteration inequality behind the `O(1/K)` rate -/
+theorem fw_step_bound (G : Mat α) (m : Nat) (hm : 0 < m) (hG : SymmSquare G m)
+    (hpsd : PosSemidef G m) (s2 : α) (hs : ∀ v : Vec α, v.length = m → qf G v ≤ s2 * dot v v)
+    (a b : Vec α) (ha : InSimplex a m) (hb : InSimplex b m) (γ : α) (hγ0 : 0 ≤ γ) (hγ1 : γ ≤ 1) :
+    qf G (fwStep G a).1 - qf G b ≤ (1 - γ) * (qf G a - qf G b) + γ * γ * (4 * s2) / 2 := by
+  have h1 := fwStep_le_phi G m hG hpsd a ha.1 γ hγ0 hγ1
+  have h2 := fw_d_le G m hm hG hpsd s2 hs a (fwE G a) ha (fwE_inSimplex G m hm hG.1 a ha.1)
+  have h3 := fw_aprime_le G m hm hG a ha.1 b hb
+  have h4 := qf_convex G m hG hpsd a b ha.1 hb.1
+  unfold fwPhi at h1
+  have e : qf G a = dot a (matVec G a) := rfl
+  rw [e] at h4 ⊢
+  generalize dot a (matVec G (fwE G a)) = a' at *
+  generalize dot a (matVec G a) = bb at *
+  generalize dot (fwE G a) (matVec G (fwE G a)) = c at *
+  generalize dot b (matVec G a) = ab at *
+  generalize qf G b = fb at *
+  have h5 : 0 ≤ γ * (2 * (bb - a') - (bb - fb)) := mul_nonneg hγ0 (by linarith)
+  have h6 : 0 ≤ γ * γ * (2 * s2 - (bb + c - 2 * a')) := mul_nonneg (mul_nonneg hγ0 hγ0) (by linarith)
+  linarith
+
+/-! ### no early stop for `epsilon = 0`; the rate -/
+
+theorem go_zero (G : Mat α) : ∀ (k : Nat) (a : Vec α) (mg : α),
+    (mgdaWeights.go G 0 k a mg).1 = (fun a => (fwStep G a).1)^[k] a
+  | 0, a, mg => by rw [mgdaWeights.go]; rfl
+  | k + 1, a, mg => by
+    rw [go_succ, if_neg (not_lt.mpr (by rw [fwStep_snd]; exact (fwG_range G a).1)), go_zero G k,
+      Function.iterate_succ_apply]
+
+theorem mgda_rate (G : Mat α) (m : Nat) (hm : 0 < m) (hG : SymmSquare G m) (hpsd : PosSemidef G m)
+    (s2 : α) (hs : ∀ v : Vec α, v.length = m → qf G v ≤ s2 * dot v v) (K : Nat) (hK : 1 ≤ K)
+    (b : Vec α) (hb : InSimplex b m) :
+    qf G (mgdaWeights G m (1 / (m : α)) 0 K).1 - qf G b ≤ 8 * s2 / ((K : α) + 2) := by
+  rw [mgdaWeights_eq, go_zero]
+  have hsimp : ∀ k, InSimplex ((fun a => (fwStep G a).1)^[k] (List.replicate m (1 / (m : α)))) m := by
+    intro k
+    induction k with
+    | zero => exact replicate_inSimplex m hm
+    | succ k ih =>
+      rw [Function.iterate_succ_apply']
+      exact fwStep_inSimplex G m hm hG.1 _ ih
+  have hs0 := s2_nonneg G m hm hpsd s2 hs
+  have := fw_rec
+    (fun k => qf G ((fun a => (fwStep G a).1)^[k] (List.replicate m (1 / (m : α)))) - qf G b)
+    (4 * s2) (by linarith)
+    (by
+      intro k γ hγ0 hγ1
+      simp only [Function.iterate_succ_apply']
+      exact fw_step_bound G m hm hG hpsd s2 hs _ b (hsimp k) hb γ hγ0 hγ1)
+    K hK
+  have e : 2 * (4 * s2) / ((K : α) + 2) = 8 * s2 / ((K : α) + 2) := by ring
+  rw [e] at this
+  exact this
+
+/-! ### two rows -/
+
+theorem half_inSimplex : InSimplex (List.replicate 2 (1 / (2 : α))) 2 := by
+  refine ⟨by simp, fun x hx => ?_, ?_⟩
+  · rw [List.eq_of_mem_replicate hx]; positivity
+  · simp [List.sum_replicate]
+    rw [← two_mul, mul_inv_cancel₀ two_ne_zero]
+
+theorem two_param (b : Vec α) (hb : InSimplex b 2) (t : Nat) (ht : t < 2) :
+    ∃ g : α, g ≤ 1 ∧ b = vadd (smul (1 - g) (List.replicate 2 (1 / (2 : α)))) (smul g (oneHot 2 t)) := by
+  obtain ⟨h1, h2, h3⟩ := hb
+  match b, h1 with
+  | [b0, b1], _ =>
+    have hb0 : 0 ≤ b0 := h2 b0 (by simp)
+    have hb1 : 0 ≤ b1 := h2 b1 (by simp)
+    have hsum : b0 + b1 = 1 := by simpa using h3
+    have ht' : t = 0 ∨ t = 1 := by omega
+    rcases ht' with rfl | rfl
+    · refine ⟨b0 - b1, by linarith, ?_⟩
+      simp only [vadd, smul, oneHot, List.replicate, List.range_succ, List.range_zero, List.nil_append,
+        List.cons_append, List.map_cons, List.map_nil, List.zipWith_cons_cons, List.zipWith_nil_left]
+      congr 1
+      · simp; linarith
+      · congr 1; simp; linarith
+    · refine ⟨b1 - b0, by linarith, ?_⟩
+      simp only [vadd, smul, oneHot, List.replicate, List.range_succ, List.range_zero, List.nil_append,
+        List.cons_append, List.map_cons, List.map_nil, List.zipWith_cons_cons, List.zipWith_nil_left]
+      congr 1
+      · simp; linarith
+      · congr 1; simp; linarith
+
+theorem two_rows_step (G : Mat α) (hG : SymmSquare G 2) (hpsd : PosSemidef G 2) (b : Vec α)
+    (hb : InSimplex b 2) : qf G (fwStep G (List.replicate 2 (1 / (2 : α)))).1 ≤ qf G b := by
+  have ha0 := half_inSimplex (α := α)
+  generalize ha : List.replicate 2 (1 / (2 : α)) = a0 at *
+  have hE : fwE G a0 = oneHot 2 (fwT G a0) := by unfold fwE; rw [ha0.1]
+  obtain ⟨ht, _⟩ := fwT_spec G 2 (by norm_num) hG.1 a0
+  obtain ⟨g, hg1, hbeq⟩ := two_param b hb (fwT G a0) ht
+  rw [ha, ← hE] at hbeq
+  rw [hbeq, qf_line G 2 hG a0 (fwE G a0) ha0.1 (by rw [fwE_length, ha0.1]) g, fwStep_qf G 2 hG a0 ha0.1]
+  exact fwGamma_opt_line _ _ _
+    (fw_d_nonneg G 2 hG hpsd a0 (fwE G a0) ha0.1 (by rw [fwE_length, ha0.1]))
+    (fw_aprime_le G 2 (by norm_num) hG a0 ha0.1 a0 ha0) g hg1
+
+theorem mgda_two_rows (G : Mat α) (hG : SymmSquare G 2) (hpsd : PosSemidef G 2) (epsilon : α)
+    (K : Nat) (hK : 1 ≤ K) (b : Vec α) (hb : InSimplex b 2) :
+    qf G (mgdaWeights G 2 (1 / 2) epsilon K).1 ≤ qf G b := by
+  obtain ⟨k, rfl⟩ : ∃ k, K = k + 1 := ⟨K - 1, by omega⟩
+  rw [mgdaWeights_eq]
+  have := go_invariant_succ G epsilon (fun a => a = List.replicate 2 (1 / (2 : α)))
+    (fun a => InSimplex a 2 ∧ ∀ b, InSimplex b 2 → qf G a ≤ qf G b)
+    (by
+      rintro a rfl
+      exact ⟨fwStep_inSimplex G 2 (by norm_num) hG.1 _ half_inSimplex,
+        fun b hb => two_rows_step G hG hpsd b hb⟩)
+    (by
+      rintro a ⟨h1, h2⟩
+      exact ⟨fwStep_inSimplex G 2 (by norm_num) hG.1 a h1,
+        fun b hb => (fwStep_mono G 2 hG hpsd a h1.1).trans (h2 b hb)⟩)
+    k (List.replicate 2 (1 / (2 : α))) 1 rfl
+  exact this.2 b hb
 
 end Tjd.Agg
